@@ -203,6 +203,58 @@ def verdict_name(result):
 M.contract(P_JUNIT + ':_error_type', params=dict(result=RESULT), inline=True,
            ensures={'the verdict of the case': lambda result, ret: ret == verdict_name(result)}, raises_only=())
 
+def _statuses_of_model(model):
+    """candidate execution statuses of the counter-model (scalar or per-index values of `...status.idx`)"""
+    import re
+    all_statuses = list(FullExeResultStatus)
+    out = []
+    for k, v in model.items():
+        if k.endswith('_FullExeResult__status.idx'):
+            for n in ([v] if isinstance(v, int) else [int(x) for x in re.findall(r'-> (\d+)', str(v))]):
+                if 0 <= n < len(all_statuses) and all_statuses[n].name not in out:
+                    out.append(all_statuses[n].name)
+    return out or [x.name for x in all_statuses]
+
+
+def _junit_replay(model, rf):
+    return _JUNIT_REPLAY % (_statuses_of_model(model),)
+
+
+_JUNIT_REPLAY = '''
+import io, datetime, pathlib
+from exactly_lib.execution.full_execution.result import FullExeResultStatus, FullExeResult
+from exactly_lib.processing import test_case_processing as tcp
+from exactly_lib.test_suite import reporting, structure
+from exactly_lib.test_suite.reporters import junit
+from exactly_lib.util.file_utils.std import StdOutputFiles
+SUCCESSFUL = ('PASS', 'SKIPPED', 'XFAIL')
+root = pathlib.Path('/suite-dir')
+suite = structure.TestSuiteHierarchy(root / 'a.suite', [], None, [], [])
+case = tcp.test_case_reference_of_source_file(root / 'a.case')
+bad = []
+for name in %r:
+    status = FullExeResultStatus[name]
+    info = reporting.TestCaseProcessingInfo(tcp.new_executed(FullExeResult(status, None, None, None)),
+                                            datetime.timedelta(0))
+    reporter = junit.JUnitRootSuiteReporter(suite, StdOutputFiles(io.StringIO(), io.StringIO()), root)
+    sub = reporter.new_sub_suite_reporter(suite)
+    sub.case_end(case, info)
+    try:
+        xml = reporter._xml_for_suite(sub, 'a.suite')
+        counted = int(xml.get('failures')) + int(xml.get('errors'))
+        children = [c.tag for tc in xml.iter('testcase') for c in tc]
+    except Exception as e:
+        print(name, ': junit reporter raised', repr(e)); bad.append(name); continue
+    unsuccessful = 0 if name in SUCCESSFUL else 1
+    print('executed case with status', name, ': tests =', xml.get('tests'), ' failures+errors =', counted,
+          ' children of <testcase>:', children, ' expected unsuccessful =', unsuccessful)
+    if xml.get('tests') != '1' or counted != unsuccessful or len(children) != unsuccessful \\
+            or any(c not in ('failure', 'error') for c in children):
+        bad.append(name)
+print('violating statuses:', bad)
+sys.exit(1 if bad else 0)
+'''
+
 M.contract(P_JUNIT + ':JUnitRootSuiteReporter._xml_for_case',
            params=dict(self=JUNIT_ROOT, test_case_reference=CASE, processing_info=INFO), returns=XML_CASE,
            ensures={
@@ -211,7 +263,7 @@ M.contract(P_JUNIT + ':JUnitRootSuiteReporter._xml_for_case',
                    lambda processing_info, result:
                    has_problem_child(result) == (not successful(processing_info.result)),
                'no other children': lambda result: len(result.children) <= 1,
-           }, raises_only=())
+           }, raises_only=(), replay=_junit_replay)
 
 
 def _mk_additional_attributes(interp, name):
@@ -233,7 +285,7 @@ M.contract(P_JUNIT + ':JUnitRootSuiteReporter._xml_for_suite',
                    len(result.children) == len(suite_reporter._result) + 3
                    and forall_range(0, len(suite_reporter._result),
                                     lambda j: case_element_ok(result.children[1 + j], suite_reporter._result[j])),
-           }, raises_only=())
+           }, raises_only=(), replay=_junit_replay)
 
 M.loop(P_JUNIT + ':JUnitRootSuiteReporter._xml_for_suite', 0,
        invariant=lambda _i, suite_reporter, root, num_errors, num_failures:
@@ -244,6 +296,69 @@ M.loop(P_JUNIT + ':JUnitRootSuiteReporter._xml_for_suite', 0,
        modifies={'num_errors': Int, 'num_failures': Int, 'sum_of_time_for_cases': Iface(DurationI),
                  '@root': None, 'root.children': ListOf(XML_CASE),
                  'test_case_setup': 'local', 'processing_info': 'local', 'result': 'local'})
+
+# ------------------------------------------------------------------------------ order of the suites
+from exactly_lib.test_suite import enumeration
+
+
+class SuiteI(Interface):
+    """TestSuiteHierarchy (read-only properties) with ghost attributes for the specification:
+    `ident` names the identity of the suite, `po_len` / `po(k)` are its post-order enumeration
+    (length and ident of the k-th suite), defined by `_po_def`."""
+    target_class = structure.TestSuiteHierarchy
+    attrs = {
+        'sub_test_suites': ListOf(Iface(lambda: SuiteI)),
+        'test_cases': ListOf(CASE),
+        'source_file': Iface(PathI),
+        'test_case_handling_setup': Any_,
+        'suite_file_inclusions_leading_to_this_file': Any_,
+        'ident': Int,
+        'po_len': Int,
+    }
+    methods = {'po': Method(returns=Int, pure=True)}
+
+
+SUITE = Iface(SuiteI)
+
+
+def _po_len(s):
+    return s.po_len
+
+
+def _po_def(s):
+    """Post-order, by structural recursion over the hierarchy: po(s) = po(c_0) ++ ... ++ po(c_n-1) ++ [s]
+    (sub-suites, in listing order, before the suite that lists them)."""
+    cs = s.sub_test_suites
+    return s.po_len == 1 + sum_prefix(cs, len(cs), _po_len) \
+        and s.po(s.po_len - 1) == s.ident \
+        and forall_range(0, len(cs), lambda j:
+                         cs[j].po_len >= 1 and
+                         forall_range(0, cs[j].po_len, lambda m: s.po(sum_prefix(cs, j, _po_len) + m) == cs[j].po(m)))
+
+
+def _assume_po_def(interp, args, ghosts):
+    assume_pred(interp, _po_def, args['suite'])
+
+
+M.assume('post-order `po` of a suite hierarchy is defined by structural recursion (`_po_def`: the enumerations of the '
+         'sub-suites in listing order, then the suite itself); the definition is unfolded for the root of the '
+         'hierarchy under verification; hierarchies are finite trees (built by _SingleFileReader, which rejects '
+         'repeated and cyclic inclusion)')
+
+M.contract('exactly_lib.test_suite.enumeration:DepthFirstEnumerator.apply',
+           params=dict(self=Inst(enumeration.DepthFirstEnumerator), suite=SUITE), returns=ListOf(SUITE),
+           setup=_assume_po_def,
+           ensures={
+               'as many suites as the hierarchy has': lambda suite, result: len(result) == suite.po_len,
+               'post-order: sub-suites (in listing order) before the suite that lists them': lambda suite, result:
+               forall_range(0, len(result), lambda k: result[k].ident == suite.po(k)),
+           }, raises_only=())
+
+M.loop('exactly_lib.test_suite.enumeration:DepthFirstEnumerator.apply', 0,
+       invariant=lambda _i, suite, ret_val:
+       len(ret_val) == sum_prefix(suite.sub_test_suites, _i, _po_len)
+       and forall_range(0, len(ret_val), lambda k: ret_val[k].ident == suite.po(k)),
+       modifies=dict(ret_val=ListOf(SUITE), sub_suite='local'))
 
 # ------------------------------------------------------------------------------ the status partition
 
